@@ -5,7 +5,9 @@ FENCE_CFGS = ["dbg", "dbg16", "chk"]      # fill + fences (8, 16, 8 without asse
 NOFENCE_CFGS = ["rwd", "rel"]             # no fences: nothing may ever be reported
 FILL_CFGS = ["rwd", "dbg", "dbg16", "chk"]
 ARENA_KINDS = ["pool_node", "pool_array", "pool_small", "stack", "iteration", "static",
-               "coll_node_id", "coll_array_log2", "coll_small_id", "coll_node_log2"]
+               "coll_node_id", "coll_array_log2", "coll_small_id", "coll_node_log2",
+               # nearly exhausted stacks: fill up leaving k = 0 .. 2*fence+17 bytes, then requests of 1..3 bytes, alignment 1/8/16
+               "static_edge", "stack_edge", "stack_vm_edge", "iter_edge"]
 
 
 def check(prop, tier, only):
@@ -47,7 +49,12 @@ def check(prop, tier, only):
             "(no fences) nothing is ever reported; the default handler is run in a forked child and must abort naming the "
             "address. Part 2: all operation sequences up to depth 6 (quick) / 9 (thorough) on memory_pool (3 list types), "
             "memory_pool_collection (4 shapes), memory_stack, iteration_allocator<2>, static_allocator in static storage: "
-            "fresh memory all 0xCD, memory released to a pool 0xDD except the link bytes, live neighbours keep their pattern.")
+            "fresh memory all 0xCD, memory released to a pool 0xDD except the link bytes, live neighbours keep their pattern, "
+            "every allocation lies inside the allocator's storage, the guard zones around the storage stay untouched and the "
+            "buffer overflow handler is never called (the harness writes in bounds only); additionally nearly exhausted "
+            "static_allocator / memory_stack (static blocks and virtual_memory_allocator blocks) / iteration_allocator: every "
+            "remainder 0..2*fence+17 followed by up to 2 (quick) / 3 (thorough) requests of 1..3 bytes with alignment 1, 8, 16 "
+            "through try_allocate and allocate.")
     assumptions = [
         "fence width is what the allocators lay out today: detail::max_alignment bytes (lowlevel_allocator) and one page "
         "(virtual_memory_allocator) on both sides whenever FOONATHAN_MEMORY_DEBUG_FENCE != 0; the harness verifies that these "
